@@ -319,10 +319,36 @@ pub fn cmd_dynamic(a: &Args) {
             }
             // query rounds: always at the end, plus random intermediate points (so that encodings and caches exist
             // before later updates, and several updates are replayed lazily at once)
-            let mut qp: Vec<bool> = ups.iter().map(|_| rng.gen_bool(0.35)).collect();
+            // histories exported by MCBatch carry explicit query rounds (marker "q"): a query round after the update before each
+            // marker and at the end, nowhere else (the batch between two rounds must stay free of queries)
+            let explicit = ups.iter().any(|o| o.op == "q");
+            let mut qp: Vec<bool>;
+            if explicit {
+                let mut ups2: Vec<Op> = vec![];
+                qp = vec![];
+                for o in &ups {
+                    if o.op == "q" {
+                        if let Some(l) = qp.last_mut() {
+                            *l = true;
+                        }
+                    } else {
+                        ups2.push(o.clone());
+                        qp.push(false);
+                    }
+                }
+                ups = ups2;
+                if ups.is_empty() {
+                    continue;
+                }
+            } else {
+                qp = ups.iter().map(|_| rng.gen_bool(0.35)).collect();
+            }
             let last = qp.len() - 1;
             qp[last] = true;
-            for k in &kinds {
+            // --perhist K: each history runs on K of the solver kinds, in rotation (default: on all of them)
+            let per = a.num("perhist", kinds.len()).min(kinds.len());
+            for j in 0..per {
+                let k = &kinds[(hi / stride * per + j) % kinds.len()];
                 n += 1;
                 jobs.push((k.clone(), ups.clone(), qp.clone(), seed.wrapping_mul(31).wrapping_add(n)));
             }
